@@ -14,13 +14,14 @@ import (
 func init() {
 	Register(&Rule{
 		ID: "C47", Section: "5 C47",
-		Technique: "feasible-path enumeration and must-pass queries on go/ssa over the tunnel set-up functions, closure/free-variable resolution for the copy goroutines, select-case reachability in the serve loops, interprocedural forward may-analysis (access-path keyed, parameter/result/field translation at calls) of deadlines armed on the tunnel connections up to the copy goroutines",
+		Technique: "feasible-path enumeration and must-pass queries on go/ssa over the tunnel set-up functions, closure/free-variable resolution for the copy goroutines, select-case reachability in the serve loops, interprocedural forward may-analysis (access-path keyed, parameter/result/field translation at calls) of deadlines armed on the tunnel connections up to the copy goroutines; derivation, from bfe_server, of the response methods that start a goroutine reading the connection and a type-based census of the ResponseWriter uses in the tunnel package",
 		Meta: core.Meta{
 			Level: "other",
 			Explanation: "Decides the structural part of tunnel set-up and tear-down in bfe_websocket and bfe_stream: (flush) on every path of serverConn.websocketDataTransfer that starts a copy goroutine, the bytes buffered in the hijacked client reader were peeked and, unless their length was tested to be 0, written to the backend connection with the write error tested, and likewise the bytes buffered in sc.bbr (the reader the handshake response was parsed from) were written to the client, both before the first `go`; (directions) every normal exit of websocketDataTransfer / TLSProxyHandler has either started two goroutines or reported an error on the error channel; the goroutines are io.Copy(backend, client) and io.Copy(client, backend) over the raw connections and each sends its result on the error channel on every path; (capacity) the error channel is created with a constant capacity >= the number of sends the set-up function itself can perform before the serve loop receives (no send can block the serve goroutine); (tear-down) in both serve loops the receive from the error channel and from closeNotifyCh lead to shutDownIn before the loop continues, the timer case leaves the loop, shutDownIn arms shutdownTimerCh from time.NewTimer(d) unless already armed, and deferred Close calls for both the client and the backend connection are registered before the copy goroutines are started; the stream handler is invoked with (sc.conn, backend conn, sc.copyErrCh); " +
 				"(armed state, rule tunnel-armed) nothing armed on the two connections during set-up outlives the set-up: a forward may-analysis of read/write deadlines (X.Set{,Read,Write}Deadline with a time that is not provably the zero time arms, with the zero time disarms; connections are identified by access path through fields, locals, closures' free variables, type assertions, parameters and results) runs from serverConn.serve through every function and closure of the package it calls (findBackend, websocketHandshake, websocketDataTransfer, processProxyProtocol, the handler returned by proxyHandler(), deferred calls at function exit) into the bodies of the copy goroutines, and at each io.Copy(dst, src) of a copy goroutine no write deadline may be armed on dst and no read deadline on src; no deadline may be armed between the start of the goroutines and the serve loop's select. The client connection's entry state is derived, not assumed: the connection returned by Hijack() carries the request phase's deadlines unless bfe_server's response.Hijack clears them on every path to its non-nil return, and the stream connection carries whatever the same analysis of bfe_server's conn.serve finds armed at the call of the TLSNextProto handler (today: the TLS-handshake read deadline, cleared before the hand-off), so that a clear may live on either side of the hand-off. " +
+				"(sole reader, rule tunnel-sole-reader) the client connection of a WebSocket tunnel is the connection of the ResponseWriter that gets hijacked, so nothing else may be reading it: the methods of bfe_server.response that (through static calls inside bfe_server) start a goroutine which reads (io.Copy/Read… in the goroutine body) are derived — today CloseNotify, whose lazily started goroutine copies the connection into a pipe and survives Hijack(); in every function and closure of bfe_websocket reachable from serverConn.serve no such method is invoked on, and no interface containing one is asserted from, a value whose interface type bfe_server.response implements (CloseNotifier, via CloseWatcher or directly), and bfe_server.conn.serve calls nothing that starts such a reader on a path that continues to the HTTPNextProto hand-off. " +
 				"Not covered: byte transparency itself (that io.Copy and the connections deliver every byte in order), half-close semantics, timing of the 250 ms grace period, what the hijacked reader contains; for the armed state: the analysis joins paths (a deadline armed and cleared under two separate but correlated conditions is reported), deadlines armed by callees outside the package that receive the connection (req.Write, Header.WriteTo, tls handshake) or through method values, and other long-lived state such as timers (time.AfterFunc closing a connection) are not followed.",
-			RuleText:    "obligations = per set-up function {each flush side, start-or-report, each direction, each goroutine's report}, the channel capacity, per serve loop {each select case, shutDownIn, each deferred close}, the handshake reader identity, the stream handler's arguments, per copy goroutine {no deadline armed on its connections when its io.Copy starts}, per package {no deadline armed while the tunnel runs}",
+			RuleText:    "obligations = per set-up function {each flush side, start-or-report, each direction, each goroutine's report}, the channel capacity, per serve loop {each select case, shutDownIn, each deferred close}, the handshake reader identity, the stream handler's arguments, per copy goroutine {no deadline armed on its connections when its io.Copy starts}, per package {no deadline armed while the tunnel runs}, per set-up function {no use of a ResponseWriter method that starts a background reader}, the hand-off in conn.serve",
 			Assumptions: []string{"http.Hijacker.Hijack returns the connection's buffered reader (bfe_server.response.Hijack)", "the response writer hijacked by bfe_websocket is bfe_server's response; bfe_stream's serverConn.conn is the connection bfe_server's conn.serve passes to the TLSNextProto handler", "functions outside the tunnel package that are handed a connection during set-up leave its deadlines as they found them", "io.Copy returns only after EOF or error of one side"},
 		},
 		Run: runC47,
@@ -44,6 +45,10 @@ func init() {
 			{Name: "stream-proxyproto-deadline-left-armed", File: "bfe_stream/server_conn.go", Old: "	_, err = proxyHeader.WriteTo(bc)\n", New: "	bc.SetWriteDeadline(time.Now().Add(time.Second))\n	_, err = proxyHeader.WriteTo(bc)\n", Expect: "tunnel-armed|TLSProxyHandler:go#0"},
 			{Name: "stream-deadline-armed-in-copy-goroutine", File: "bfe_stream/server_conn.go", Old: "		n, err := io.Copy(c, b)\n", New: "		b.SetReadDeadline(time.Now().Add(time.Minute))\n		n, err := io.Copy(c, b)\n", Expect: "tunnel-armed|TLSProxyHandler:go#1"},
 			{Name: "stream-deadline-armed-after-start", File: "bfe_stream/server_conn.go", Old: "		state.StreamBytesSent.Inc(uint(n))\n		errCh <- err\n	}()\n", New: "		state.StreamBytesSent.Inc(uint(n))\n		errCh <- err\n	}()\n	c.SetReadDeadline(time.Now().Add(time.Minute))\n", Expect: "tunnel-armed|bfe_stream:after-start"},
+			{Name: "ws-close-notify-polled-in-handshake", File: "bfe_websocket/server_conn.go", Old: "	// check whether backend accept websocket upgrade\n	if !CheckAcceptWebSocket(rsp) {", New: "	if cn, ok := rw.(http.CloseNotifier); ok {\n		select {\n		case <-cn.CloseNotify():\n			return fmt.Errorf(\"client gone\")\n		default:\n		}\n	}\n	// check whether backend accept websocket upgrade\n	if !CheckAcceptWebSocket(rsp) {", Expect: "tunnel-sole-reader|bfe_websocket:serverConn.websocketHandshake"},
+			{Name: "ws-close-watcher-around-tunnel", File: "bfe_websocket/server_conn.go", Old: "	// websocket data transfer\n	sc.websocketDataTransfer()\n", New: "	cw := http.NewCloseWatcher(sc.rw.(http.CloseNotifier), nil)\n	go cw.WatchLoop()\n	defer cw.Stop()\n	// websocket data transfer\n	sc.websocketDataTransfer()\n", Expect: "tunnel-sole-reader|bfe_websocket:serverConn.serve"},
+			{Name: "close-notifier-started-before-upgrade-hand-off", File: "bfe_server/http_conn.go", Old: "		// check whether client request for http upgrade (over http/https conn)\n		if firstRequest {", New: "		clientGone := w.CloseNotify()\n		_ = clientGone\n		// check whether client request for http upgrade (over http/https conn)\n		if firstRequest {", Expect: "tunnel-sole-reader|bfe_server:conn.serve:hand-off"},
+			{Name: "silent-ws-flush-rewritten", File: "bfe_websocket/server_conn.go", Old: "	if f, ok := rw.(http.Flusher); ok {\n		if err := f.Flush(); err != nil {\n			return err\n		}\n	}\n	return nil\n}\n\nfunc peekBufferedData", New: "	f, ok := rw.(http.Flusher)\n	if !ok {\n		return nil\n	}\n	return f.Flush()\n}\n\nfunc peekBufferedData", Silent: true},
 			{Name: "silent-ws-flush-deadline-cleared", File: "bfe_websocket/server_conn.go", Old: "		if _, err := sc.bconn.Write(cbuf); err != nil {\n			errCh <- err\n			return\n		}\n", New: "		sc.bconn.SetWriteDeadline(time.Now().Add(time.Second))\n		if _, err := sc.bconn.Write(cbuf); err != nil {\n			errCh <- err\n			return\n		}\n		sc.bconn.SetWriteDeadline(time.Time{})\n", Silent: true},
 			{Name: "silent-ws-handshake-deadline-deferred-clear", File: "bfe_websocket/server_conn.go", Old: "	if err := req.Write(sc.bconn); err != nil {", New: "	sc.bconn.SetDeadline(time.Now().Add(time.Second))\n	defer sc.bconn.SetDeadline(time.Time{})\n	if err := req.Write(sc.bconn); err != nil {", Silent: true},
 			{Name: "silent-ws-armed-in-handshake-cleared-in-transfer", File: "bfe_websocket/server_conn.go", Old: "	// write 101 response\n	return sendResponse(rw, rsp)\n}\n\nfunc (sc *serverConn) websocketDataTransfer() {\n	var cbr *bufio.ReadWriter\n	var err error\n	errCh := sc.errCh\n", New: "	// write 101 response\n	sc.bconn.SetWriteDeadline(time.Now().Add(time.Second))\n	return sendResponse(rw, rsp)\n}\n\nfunc (sc *serverConn) websocketDataTransfer() {\n	var cbr *bufio.ReadWriter\n	var err error\n	errCh := sc.errCh\n	sc.bconn.SetDeadline(time.Time{})\n", Silent: true},
@@ -495,6 +500,10 @@ func runC47(c *core.Ctx) {
 		if serve != nil {
 			c47checkArmed(c, ws, serve, c47state{}, c47hijackArmed(c))
 		}
+		// nobody else reads the client connection that is hijacked
+		if serve != nil {
+			c47soleReader(c, ws, serve)
+		}
 		// deferred closes registered before the tunnel starts
 		if serve != nil {
 			trCalls := core.Calls(serve, ws+".serverConn.websocketDataTransfer")
@@ -610,4 +619,5 @@ func runC47(c *core.Ctx) {
 	c.Min("tunnel-close", 4)
 	c.Min("tunnel-handler", 2)
 	c.Min("tunnel-armed", 6)
+	c.Min("tunnel-sole-reader", 2)
 }
